@@ -102,6 +102,8 @@ type outcome struct {
 	effects []string
 	dropped map[int]bool // labels of retransmissions of accepted requests (left out of the reference run)
 	joinClass bool       // the violation is an in-flight false retry answered with the original's reply
+	refs map[int]bool    // request ids whose replies later ops take state IDs from
+	defs map[int]int     // label of an op -> id of the request it introduced
 }
 
 type run41 struct {
@@ -213,6 +215,7 @@ func (r *run41) sidOf(x int, exact bool) nfsv4.Stateid4 {
 	if x < 0 {
 		return nfsv4.Stateid4{}
 	}
+	r.out.refs[x] = true
 	q, ok := r.reqs[x]
 	if !ok || q.orig() == nil || !q.orig().returned {
 		return nfsv4.Stateid4{Seqid: 1, Other: [12]byte{9, 9, 9}}
@@ -359,6 +362,8 @@ func (r *run41) start(q *req41, kind string) {
 	if c.retransOf != nil || q.falseOf != nil {
 		// the ids were consumed before: whatever this call is answered, it must not have any effect
 		r.out.dropped[c.label] = true
+	} else if !first {
+		r.out.refs[q.id] = true
 	}
 	q.calls = append(q.calls, c)
 
@@ -382,7 +387,7 @@ func (r *run41) start(q *req41, kind string) {
 
 	// implementation
 	if q.parkKind != "" && first {
-		q.gate = r.w.Park(q.parkLeaf, q.parkKind)
+		q.gate = r.w.ParkFor(c.id, q.parkLeaf, q.parkKind)
 	}
 	c.effBefore = r.w.LogLen()
 	r.w.SetTag(c.id)
@@ -776,7 +781,7 @@ func (r *run41) op(op string) bool {
 				return false
 			}
 			q.parkKind, q.parkLeaf = kv[0], atoi(kv[1])%numFiles
-			if q.parkKind != "open" && q.parkKind != "write" && q.parkKind != "read" {
+			if q.parkKind != "open" && q.parkKind != "write" && q.parkKind != "read" && q.parkKind != "openchild" {
 				return false
 			}
 			body = body[:len(body)-1]
@@ -788,9 +793,9 @@ func (r *run41) op(op string) bool {
 		if !ok {
 			return false
 		}
-		// a park inside OPEN(CLAIM_NULL) holds the directory lock: refuse
-		// histories in which another request could enter that directory
-		if body[0] == "openn" && q.parkKind != "" {
+		// OPEN(CLAIM_NULL) is parked before the directory lock is taken ("openchild");
+		// a park inside the leaf's open would hold the directory lock
+		if (body[0] == "openn") != (q.parkKind == "openchild") && q.parkKind != "" {
 			return false
 		}
 		q.body = body
@@ -800,6 +805,7 @@ func (r *run41) op(op string) bool {
 		}
 		q.args = append([]nfsv4.NfsArgop4{nfsx.Sequence(r.sessionID(q.sess), uint32(q.slot), q.seq, q.cache)}, ops...)
 		r.reqs[id] = q
+		r.out.defs[r.label] = id
 		r.touched[r.slotKey(q)]++
 		q.mark = r.touched[r.slotKey(q)]
 		r.start(q, "send")
@@ -826,6 +832,7 @@ func (r *run41) op(op string) bool {
 		q := &req41{id: id, sess: o.sess, msess: o.msess, slot: o.slot, seq: o.seq, cache: o.cache, dsess: -1, body: []string{"variant", f[3]}}
 		q.args = append([]nfsv4.NfsArgop4{o.args[0]}, variant(o.args, arg(3))...)
 		r.reqs[id] = q
+		r.out.defs[r.label] = id
 		r.touched[r.slotKey(q)]++
 		q.mark = r.touched[r.slotKey(q)]
 		r.start(q, "fdup")
